@@ -240,4 +240,20 @@ CHECKS['C17'] = {
     'level_note': 'The facade only marshals records in and out of WriteAheadLog::{push, flush, truncate, reader}; crash points inside a force are C01/C08 business.',
 }
 
+CHECKS['C18'] = {
+    'level': 'exploration',
+    'exhaustive': False,
+    'rule': 'exhaustive block: 5 schemas (1-2 key columns, 1-2 value columns over Int / BigInt / Double / Text) x update chains of length 0-1 by the creator x every creator state '
+            '{committed-before, committed-after, active, aborted, the reader itself} x optional delete by a transaction in each of the five states x vacuum horizons {0, 10, 20}: every combination is built through the facade and decoded; '
+            'sampled block: 1-3 key and 0-12 value columns of seven types, NULLs, long text, four reader snapshots, four horizons. Oracle: list-of-versions model with the snapshot-isolation visibility rule; '
+            'checks: decode(encode(row)) == row, latest version, version selected per snapshot, vacuum(h) does not change what a snapshot with xmin >= h decodes. Distinct = structural hash of the case.',
+    'legs': {'quick': [{'flavour': 'prod', 'shards': 16}], 'thorough': [{'flavour': 'prod', 'shards': 16}]},
+    'min_evaluations': {'quick': 500000, 'thorough': 9000000},
+    'min_counters': {'quick': {'snapshot_decodes': 1500000, 'vacuum_invariance_checks': 100000, 'exhaustive_cases': 250}, 'thorough': {'snapshot_decodes': 3000000}},
+    'assumptions': ['the facade builds Snapshot::new(xid, xmin, xmax, active, aborted) exactly as given', 'chains of two or more updates and updates by another transaction are open findings (deterministic witnesses)'],
+    'technique': 'model-based runtime monitor (list-of-versions oracle) over an exhaustively enumerated small-bounds grid plus sampled cases, through an instrumentation facade',
+    'level_text': 'Every case of the small-bounds grid and 640k (quick) / 9.6M (thorough) sampled cases are encoded by the real tuple code and decoded for explicit snapshots; each decode must equal the version the model selects.',
+    'level_note': 'Exhaustive only over the stated small bounds; the facade marshals values and calls TupleBuilder / Tuple / TupleReader unchanged.',
+}
+
 NOT_APPLICABLE = [{'property_id': c, 'reason': 'check not built yet in this session (work in progress, see DESIGN.md)'} for c in ALL if c not in CHECKS]
